@@ -97,13 +97,30 @@ def get_check(name):
     return _CHECKS[name]
 
 
-def _run_one(name, case):
+class RunTimeout(BaseException):
+    pass
+
+
+def _on_alarm(signum, frame):
+    raise RunTimeout("run exceeded its wall-clock cap")
+
+
+def _run_one(name, case, cap=None):
+    """One run under a wall-clock cap (a safety net only: hitting it is a harness error,
+    never a pass and never a violation)."""
+    import signal
     chk = get_check(name)
+    cap = cap or getattr(chk, "run_cap_s", 120)
+    old = signal.signal(signal.SIGALRM, _on_alarm)
+    signal.setitimer(signal.ITIMER_REAL, cap)
     try:
         res = chk.run(case)
     except BaseException as e:  # harness error: never a violation, never silently ok
         import traceback
         return {"harness_error": "%s: %s\n%s" % (type(e).__name__, e, traceback.format_exc(limit=8))}
+    finally:
+        signal.setitimer(signal.ITIMER_REAL, 0)
+        signal.signal(signal.SIGALRM, old)
     return res
 
 
@@ -153,7 +170,7 @@ def shrink(name, case, target, findings, max_runs=400):
     chk = get_check(name)
 
     def still_fails(c):
-        res = _run_one(name, c)
+        res = _run_one(name, c, cap=20)
         if res.get("harness_error"):
             return None
         unknown, _ = classify(res.get("violations", []), findings)
